@@ -216,7 +216,10 @@ impl EditState {
     /// This function will return an error if .
     pub fn stamp_layer_down(&mut self) -> EngineResult<()> {
         let _undo = self.begin_atomic_undo(fl!(crate::LANGUAGE_LOADER, "undo-stamp-down"));
-        let layer_idx = self.current_layer;
+        let layer_idx = self.get_current_layer()?;
+        if layer_idx == 0 {
+            return Err(super::EditorError::CurrentLayerInvalid.into());
+        }
         let layer = if let Some(layer) = self.get_cur_layer() {
             layer.clone()
         } else {
@@ -275,7 +278,7 @@ impl EditState {
     /// This function will return an error if .
     pub fn make_layer_transparent(&mut self) -> EngineResult<()> {
         let _undo = self.begin_atomic_undo(fl!(crate::LANGUAGE_LOADER, "undo-make_transparent"));
-        let layer_idx = self.current_layer;
+        let layer_idx = self.get_current_layer()?;
         if let Some(layer) = self.get_cur_layer_mut() {
             let area = crate::Rectangle {
                 start: Position::new(0, 0),
